@@ -1677,7 +1677,9 @@ func (self *ReplicationAckDB) ProcessLeaderPushLock(glockIndex uint16, aofLock *
 		return nil
 	}
 	if lock.locked == 0 {
-		// timed out and rolled back before its record got here: nothing is left to acknowledge
+		// timed out and rolled back before its record got here: nothing is left to acknowledge, and
+		// the record no longer belongs to a pending lock (a failed write must not fail it again)
+		aofLock.lock = nil
 		self.ackGlocks[glockIndex].Unlock()
 		lockManager := lock.manager
 		lockManager.lockDb.DoAckLock(lock, false)
